@@ -7,6 +7,8 @@
 //! Exit codes: 0 property held on everything explored, 1 violation (a line
 //! `VIOLATION property=<id> replay=<path>` is printed), 2 harness error.
 
+mod c02;
+mod c10;
 mod c12;
 mod c15;
 mod driver;
@@ -18,6 +20,14 @@ mod stream;
 macro_rules! dispatch {
     ($id:expr, $c:ident => $body:expr, $else:expr) => {
         match $id {
+            "C02" => {
+                let $c = &c02::C02;
+                $body
+            }
+            "C10" => {
+                let $c = &c10::C10;
+                $body
+            }
             "C12" => {
                 let $c = &c12::C12;
                 $body
